@@ -104,9 +104,9 @@ harness! { fn c04_signing_key_entry_h2w8_l1_c3() unwind 36 { signing_key_entry(3
 /// every path ends in an error: no callback, no signature, no panic - for malformed *and* for
 /// well-formed keys whose expansion fails for any other reason.
 fn malformed_key<H: HashChain>(with_aux: bool) {
-    let key: [u8; 40] = kani::any();
+    let key: [u8; 56] = kani::any();
     let klen: usize = kani::any();
-    kani::assume(klen <= 40);
+    kani::assume(klen <= 56);
     let msg: [u8; 2] = kani::any();
     let accept: bool = kani::any();
     let mut calls = 0u32;
@@ -127,8 +127,10 @@ fn malformed_key<H: HashChain>(with_aux: bool) {
     assert!(calls == 0, "callback not invoked when no signature could be produced");
     // the lifetime query takes the same route
     let sk = SigningKey::<H>::from_bytes(&key[..klen]);
-    assert!(sk.is_ok(), "SigningKey::from_bytes accepts any byte string up to the blob capacity");
-    assert!(sk.unwrap().get_lifetime().is_err(), "lifetime query fails for a malformed key / failed expansion");
+    assert!(sk.is_ok() == (klen <= 48), "SigningKey::from_bytes accepts exactly the byte strings up to the blob capacity (48)");
+    if let Ok(sk) = sk {
+        assert!(sk.get_lifetime().is_err(), "lifetime query fails for a malformed key / failed expansion");
+    }
     let mut pb = [0u8; 8];
     if klen >= 16 { pb.copy_from_slice(&key[8..16]); }
     kani::cover!(klen == 16 + H::OUTPUT_SIZE as usize && ref_param_bytes_cfg(&pb, true).is_some(), "well-formed key reachable");
